@@ -79,6 +79,11 @@ func (p *poller) addConn(c *Conn) error {
 	}
 	p.g.connsUnix[fd] = c
 	p.addRead(fd)
+	// Stop sweeps the table once: a connection that is published behind
+	// the sweep (AddConn from a user's goroutine) closes itself.
+	if p.g.isStopping() {
+		_ = c.Close()
+	}
 	return nil
 }
 
